@@ -5,7 +5,7 @@ well-formed rendering `R3` (`Lemmas/ParseRenderDef.lean`: the fragment `E3` with
 raw tree (bracket nodes for required AND redundant pairs). The development of `Lemmas/ParsePrint3.lean` re-done over
 `R3` (a new inductive type) with the one new case `par`; a parenthesised binary set phrase is one `primary` of kind
 `setBin` (`PrimP` now speaks of the phrase's own kind), a parenthesised formula is a `logic_par` at the predicate level.
-Result of this file: `claim` (all categories). Top level: `Lemmas/ParseRender.lean`.
+Result of this file: `claim` (all categories). Top level: `Lemmas/ParseRenderTop.lean`, against `E3`: `Lemmas/ParseRender.lean`.
 -/
 namespace CCVerif.PR
 open CCVerif.Syntax CCVerif.Generated CCVerif.Lexer CCVerif.Parser CCVerif.Printer CCVerif.PP
